@@ -13,10 +13,12 @@ pub fn gen_c14(run: &mut Run, seed: u64, thorough: bool) {
     let len = if thorough { 35 } else { 30 };
     let gs = Addr::c(150);
     let owner = Addr::c(1);
-    let collector = Addr::c(2);
     let admin = Addr::c(5);
     let stranger = Addr::c(99);
     for h in 0..histories {
+        // every fifth history: ONE address is owner and gas collector at construction (ownership may move later; the
+        // collector role has no transfer entry point and must stay where it is)
+        let collector = if h % 5 == 4 { owner.clone() } else { Addr::c(2) };
         run.scenario("gs", &format!("c14-{h}"));
         run.op("time 1000 10", "time");
         run.op(&format!("gs.new {} {} {}", gs.tok(), owner.tok(), collector.tok()), "construct");
@@ -26,8 +28,16 @@ pub fn gen_c14(run: &mut Run, seed: u64, thorough: bool) {
             let o = run.op(&format!("sac.new {}", admin.tok()), "env-token");
             tokens.push(Addr::parse(o.split(' ').nth(1).unwrap()));
         }
+        // every third history: one gas token is the repository's own token contract (current source) instead of an asset contract
+        if h % 3 == 2 {
+            let o = run.op(&format!("itok.new {} {}", Addr::c(210).tok(), admin.tok()), "env-token-interchain");
+            if let Some(a) = o.split(' ').nth(1) {
+                tokens[0] = Addr::parse(a);
+            }
+        }
         let spenders: Vec<Addr> = (10..13).map(Addr::c).collect();
-        let receivers: Vec<Addr> = vec![Addr::c(20), Addr::c(21), collector.clone()];
+        // receivers include the collector and the SERVICE ITSELF (a payout to itself must leave its balance where it was)
+        let receivers: Vec<Addr> = vec![Addr::c(20), Addr::c(21), collector.clone(), gs.clone()];
         for t in &tokens {
             for s in &spenders {
                 if rng.chance(3, 4) {
@@ -60,7 +70,8 @@ pub fn gen_c14(run: &mut Run, seed: u64, thorough: bool) {
                     2 => (cur_owner.tok(), if *right == cur_owner { "right" } else { "owner" }),
                     3 => (collector.tok(), if *right == collector { "right" } else { "collector" }),
                     4 => (sender.tok(), if *right == sender { "right" } else { "sender" }),
-                    5 => (receiver.tok(), if *right == receiver { "right" } else { "receiver" }),
+                    // (a live contract is never given a mock authorisation: the test host would replace it)
+                    5 if receiver != gs => (receiver.tok(), if *right == receiver { "right" } else { "receiver" }),
                     6 => (format!("{}!", right.tok()), "right-other-args"),
                     7 if has_subs => (format!("{}~", right.tok()), "right-root-only"),
                     // blanket authorisation (every address authorises whatever is asked of it, with whatever arguments): shows
